@@ -83,7 +83,10 @@ class C03(fw.Property):
                     "harness/simloop.py ideal timer service, harness/simnet.py fake transport"]
     assumptions = ["timers fire exactly when due (virtual loop); real selector-loop jitter is not modelled",
                    "event alphabet of the model: CON requests, empty ACK/RST, 2.05 responses (piggy-backed / separate CON / NON), transport errors, "
-                   "request cancellation, synchronously refusing remotes (all run-level theorems include them)"]
+                   "request cancellation, synchronously refusing remotes (all run-level theorems include them)",
+                   "only confirmable client REQUESTS are modelled and generated; confirmable responses / notifications of a server site go through the same "
+                   "_send_initially/_retransmit code but are not exercised here (audit gap 5, left open); TokenManager.dispatch_error's loop over "
+                   "incoming_requests is not modelled (no server site in the stack)"]
 
     def setup(self):
         import logging
@@ -264,7 +267,7 @@ class C03(fw.Property):
     def impl_retransmit(self, inp):
         import simloop, simnet
         import aiocoap, aiocoap.messagemanager as mm, aiocoap.tokenmanager as tm
-        from aiocoap import Message, GET, error
+        from aiocoap import Message, GET, PUT, POST, FETCH, error
         loop = simloop.VLoop()
         log = []
         mm.random = ScriptedUniform(inp["mid0"], inp["draws"], log, loop)
@@ -277,7 +280,7 @@ class C03(fw.Property):
             for (t, remote, raw) in mi.take():
                 try:
                     m = Message.decode(raw, remote)
-                    rid = int(m.payload.decode()[1:]) if m.payload.startswith(b"r") else None
+                    rid = int(m.payload.split(b" ")[0][1:]) if m.payload.startswith(b"r") else None
                     mid, mtype = m.mid, int(m.mtype)
                 except Exception:
                     rid, mid, mtype = None, None, None
@@ -302,10 +305,16 @@ class C03(fw.Property):
                 if ev[0] == "req":
                     _, rid, r, tn = ev
                     kw = {} if (tn == DEFAULT_TUNING and rid % 2 == 0) else {"transport_tuning": self.make_tuning(tn)}
-                    m = Message(code=GET, payload=b"r%d" % rid, **kw)
+                    # message content varies with the request id (audit gap 6): method, Uri-Path / Uri-Query options, payload size,
+                    # and whether the request goes through the blockwise layer; "all copies byte-identical" is checked on the wire
+                    code = [GET, PUT, POST, FETCH][rid % 4]
+                    filler = [b"", b" x", b" " + bytes(range(256)) + b"y" * 44][(rid // 2) % 3]
+                    m = Message(code=code, payload=b"r%d" % rid + filler, **kw)
+                    if rid % 3: m.opt.uri_path = ("a", "b%d" % rid)
+                    if rid % 5 == 1: m.opt.uri_query = ("k=%d" % rid, "z")
                     m.remote = simnet.Addr("r%d" % r)
                     with loop.enter():
-                        req = ctx.request(m, handle_blockwise=False)
+                        req = ctx.request(m, handle_blockwise=(rid % 2 == 1))
                     reqs[rid] = req; tokens[rid] = m
                     def done(f, rid=rid):
                         if f.cancelled(): return
@@ -355,7 +364,7 @@ class C03(fw.Property):
         rid_of = {id(q): rid for rid, q in reqs.items()}
         out = []
         for (token, remote), pipe in (tman.outgoing_requests or {}).items():
-            rid = int(pipe.request.payload.decode()[1:])
+            rid = int(pipe.request.payload.split(b" ")[0][1:])
             out.append([rid, int(remote.name[1:])])
         timers = len(loop.pending_timers())
         return {"steps": steps, "exchanges": sorted(ex), "backlogs": sorted(bl), "outgoing": sorted(out), "now": loop.now_us(), "timers": timers}
@@ -469,6 +478,7 @@ class C03(fw.Property):
             if ev[0] == "wait": clock[0] = max(clock[0], min(ev[1], md[0]) if md else ev[1])
             elif ev[0] == "fire" and md: clock[0] = max(clock[0], md[0]); fired = md[1]
             elif ev[0] == "firedue" and md and md[0] <= clock[0]: fired = md[1]
+            clk_step = clock[0]
             for e in step:
                 if e[0] in ("send", "fail", "result", "draw", "empty", "error") and isinstance(e[1], int): clock[0] = max(clock[0], e[1])
             if fired is not None and remote_of[fired] in refusing and len(info[fired]["times"]) < 1 + tun[fired][3]:
@@ -543,6 +553,8 @@ class C03(fw.Property):
                 if is_rst:
                     if pending.get(matched) and (len(mine) != 1 or mine[0][3] != "MessageError" or not mine[0][5]):
                         return V("C03:rst-did-not-fail-request", "RST for request %d gave %s" % (matched, mine), ev[1])
+                    if mine and mine[0][1] != clk_step:
+                        return V("C03:rst-failure-at-wrong-time", "RST at %d failed request %d at %d" % (clk_step, matched, mine[0][1]), ev[1])
                     if not pending.get(matched) and mine: return ("C03:spurious-fail", "RST failed request %d which was no longer pending" % matched)
                     x["state"] = "reset"; pending[matched] = False
                 else:
@@ -560,6 +572,7 @@ class C03(fw.Property):
                 if r not in refusing and not (ev[0] == "err" and ev[1] == r):
                     return V("C03:spurious-fail", "request %d failed with NetworkError during %s although its remote neither refuses nor reported an error" % (f[2], ev), r)
                 if not pending.get(f[2]): return V("C03:spurious-fail", "request %d failed although it was no longer pending" % f[2], r)
+                if f[1] != clock[0]: return V("C03:transport-error-failure-at-wrong-time", "request %d failed at %d, the error was reported at %d" % (f[2], f[1], clock[0]), r)
                 err_remotes.add(r)
                 if ev[0] in ("fire", "firedue"): tainted.add(r)      # a refused retransmission
             for r in err_remotes:
